@@ -72,6 +72,10 @@ func (f *flat) node(n *Node) string {
 			b = "BCancel"
 		case "convpanic":
 			b = lib.CoqApp("BConvPanic", lib.CoqN(uint64(n.ID)))
+		case "prefail":
+			b = lib.CoqApp("BPreFail", n.Err.coq())
+		case "postfail":
+			b = lib.CoqApp("BPostFail", n.Err.coq())
 		default:
 			panic("harness: bad behaviour " + n.Beh)
 		}
